@@ -28,6 +28,10 @@ CHECKS["C08"] = {
 }
 
 HTTPRIG = ["pkg/object/httpserver", "harness/common/httpserver"]
+# the real HTTPServer runtime on an in-memory listener (shared by C17 and C11; the harness lives in harness/C17/httpruntime)
+RUNTIMEUNIT = {"name": "httpruntime", "pkg": "pkg/object/httpserver", "test": "TestVerifC17rt", "inject": [HTTPRIG, ["pkg/object/httpserver", "harness/C17/httpruntime"]],
+               "instrument": [{"file": "pkg/object/httpserver/runtime.go", "add_imports": {"zzvnet": "vnet"},
+                               "replace": [{"old": "gnet.Listen(\"tcp\", fmt.Sprintf(\":%d\", r.spec.Port))", "new": "zzvnet.Listen(\"tcp\", fmt.Sprintf(\":%d\", r.spec.Port))"}]}]}
 
 CHECKS["C01"] = {
     "level": "exploration",
@@ -259,6 +263,7 @@ CHECKS["C17"] = {
         {"name": "mqttcap", "pkg": "pkg/object/mqttproxy", "test": "TestVerifC17mqtt", "inject": [BROKERRIG], "instrument": BROKERINSTR},
         {"name": "mqttcapsched", "pkg": "pkg/object/mqttproxy", "test": "TestVerifC17mqttsched", "inject": [BROKERRIG], "gomaxprocs": 1, "workers": 3,
          "instrument": [dict(BROKERINSTR[0], imports={"net": "vnet", "sync": "vsync", "sync/atomic": "vatomic"})]},
+        RUNTIMEUNIT,
     ],
 }
 
@@ -281,6 +286,7 @@ CHECKS["C11"] = {
          "instrument": [{"file": "pkg/object/trafficcontroller/trafficcontroller.go", "imports": {"sync": "vsync"}}]},
         {"name": "httpserver", "pkg": "pkg/object/httpserver", "test": "TestVerifC11mux", "gomaxprocs": 1, "workers": 4, "inject": [HTTPRIG],
          "instrument": [{"file": "pkg/object/httpserver/mux.go", "imports": {"sync/atomic": "vatomic"}}]},
+        RUNTIMEUNIT,
     ],
 }
 
